@@ -65,7 +65,7 @@ SPECS = {
             "one evaluation = one seeded history (10-50 ops); non-trivial = at least 4 fetch operations on a result of >=2 rows with at least "
             "one sibling/foreign operation between two fetches of the same cursor; distinct = hash of the sequence of (cursor, op kind)"
         ),
-        mandatory_probes={"any": ["fetch_interrupted_by_sibling", "fetch_past_end", "fetch_before_execute", "dup_column_names", "fetchmany_default_size", "pandas", "dict_cursor_fetch"]},
+        mandatory_probes={"any": ["fetch_interrupted_by_sibling", "fetch_past_end", "fetch_before_execute", "dup_column_names", "fetchmany_default_size", "pandas", "dict_cursor_fetch", "fetch_after_status_statement"]},
     ),
     "C06": dict(
         _BASE,
@@ -417,7 +417,9 @@ class Machine:
                     pass
                 return
             if st["kind"] != "select":
-                return  # fetches after non-queries are not constrained here
+                if st.get("cols") is not None and k != "pandas":
+                    self.fetch_status(op, cur, st, brief)  # a status result is one row: handed out once, then nothing
+                return
             self.fetch(op, cur, st, brief, interrupted)
             return
         if k == "rowcount":
@@ -514,6 +516,31 @@ class Machine:
         st["idx"] = idx + len(got) if k != "fetchmany" else min(n_total, idx + (op["n"] if op["n"] is not None else st["arraysize"]))
         st["handed"] += 1
 
+    def fetch_status(self, op: dict[str, Any], cur: Any, st: dict[str, Any], brief: dict[str, Any]) -> None:
+        """After DML / DDL / SET / transaction statements the result is exactly one status row."""
+        k = op["k"]
+        idx = st.get("idx") or 0
+        self.probe("fetch_after_status_statement")
+        try:
+            if k == "fetchone":
+                r = cur.fetchone()
+                got = [] if r is None else [r]
+                size = 1
+            elif k == "fetchmany":
+                size = op["n"] if op["n"] is not None else st["arraysize"]
+                got = cur.fetchmany(op["n"]) if op["n"] is not None else cur.fetchmany()
+            else:
+                size = 10 ** 6
+                got = cur.fetchall()
+        except BaseException as e:  # noqa: BLE001
+            self.flag("C05", f"fetch-raises/{k}/{type(e).__name__}", "a fetch on an open result set raised", {**brief, "statement": st["sql"], "error": exc_record(e)})
+            return
+        want_n = max(0, min(size, 1 - idx))
+        if len(got) != want_n:
+            self.flag("C05", f"fetch-count/status-row/{k}", "the status row of a statement is handed out exactly once", {**brief, "statement": st["sql"], "expected": want_n, "observed": len(got), "already_handed_out": idx})
+            return
+        st["idx"] = min(1, idx + size)
+
     # ---- C06
     def description(self, op: dict[str, Any], cur: Any, st: dict[str, Any] | None, brief: dict[str, Any]) -> None:
         if st is None or st.get("kind") in (None, "other"):
@@ -602,6 +629,7 @@ class Machine:
         # (the property only speaks about `description`, so the cursor's model state is reset, not checked)
         if st is not None:
             st["kind"] = "other"
+            st["cols"] = None
         else:
             self.state[(op["s"], op["cur"])] = {"kind": "other", "arraysize": 1}
 
